@@ -633,8 +633,12 @@ PROPS = {
                 "inductive lemmas; 1/5 deliberately violate an applicability condition) x all flags; ExternalEquivalenceTask::decompose vs Lean `externalProblems`: error kind or the full list of problems "
                 "(names, roles, formula trees), and the full TPTP text",
         "level_text": "Partial: the whole pipeline (checks, tau*, placeholder replacement, completion, simplification, control translation, private renaming, outline, assembly, decomposition) is modelled and tied by "
-                      "exact correspondence; final_family_refutes (C19) is proved; the property is FALSE on the unchanged tree at two points, each with a kernel-checked counterexample theorem on the model and a "
-                      "corpus witness replayed on the implementation (known findings); ExternalRefutes (needs C04) is not proved.",
+                      "exact correspondence. Proved: external_refutes_programs - for a task that compares two programs (no placeholders, no proof outline, tightness not bypassed; every direction, decomposition, "
+                      "simplify and eq-break flag): some emitted problem is refuted by a classical interpretation iff it satisfies the user-guide assumptions and, in a requested direction, is a stable model of one "
+                      "program (on that program's vocabulary, with its own input facts) and satisfies the completed definitions of the other program's private predicates without being a stable model of it "
+                      "(composition of C04 completion_tight, C07, C19, private renaming, assembly; hypothesis: rename_conflicting_symbols is the identity on the assembled problems). Not proved: specification "
+                      "formulas instead of a program, placeholders, proof outlines, uniqueness of the private extents. The literal property is FALSE on the unchanged tree at two points, each with a kernel-checked "
+                      "counterexample theorem and a corpus witness replayed on the implementation (known findings).",
         "level_note": PROOF_NOTE,
         "technique": "Lean 4 (pipeline model, counterexample theorems by kernel evaluation, decomposition theorems) + end-to-end differential correspondence",
         "design_ref": "DESIGN.md 6/C02",
